@@ -256,13 +256,40 @@ func c19(r *core.Run) {
 				if !o2 {
 					return
 				}
+				// the schema prefix: the captured result of backend.CreateIndex (by what the
+				// captured variable holds, not by its name)
+				isSchemaPrefix := func(fv *ssa.FreeVar) bool {
+					cell := freeVarBinding(cl, fv)
+					if cell == nil {
+						return false
+					}
+					fromCreate := func(v ssa.Value) bool {
+						c, idx := core.CallOf(v)
+						if c == nil || idx != 0 {
+							return false
+						}
+						if c.Call.IsInvoke() {
+							return c.Call.Method.Name() == "CreateIndex"
+						}
+						return strings.HasSuffix(core.CalleeName(&c.Call), ".schemaIndexPrefix")
+					}
+					if fromCreate(cell) {
+						return true
+					}
+					for _, u := range core.Uses(cell) {
+						if st, ok := u.(*ssa.Store); ok && st.Addr == cell && fromCreate(st.Val) {
+							return true
+						}
+					}
+					return false
+				}
 				idOK := false
 				if p, isLoad := core.LoadedFrom(inner.Call.Args[1]); isLoad {
-					if fv, isFV := p.(*ssa.FreeVar); isFV && fv.Name() == "id" {
+					if fv, isFV := p.(*ssa.FreeVar); isFV && isSchemaPrefix(fv) {
 						idOK = true
 					}
 				}
-				if fv, isFV := inner.Call.Args[1].(*ssa.FreeVar); isFV && fv.Name() == "id" {
+				if fv, isFV := inner.Call.Args[1].(*ssa.FreeVar); isFV && isSchemaPrefix(fv) {
 					idOK = true
 				}
 				_, fresh := inner.Call.Args[0].(*ssa.MakeSlice)
